@@ -14,6 +14,7 @@
 import BioCantor.Proofs.DigClasses
 import BioCantor.Proofs.DigDict
 import BioCantor.Proofs.DigImage
+import BioCantor.Proofs.DigSchema
 namespace BioCantor.Props.C08
 open BioCantor BioCantor.Spec.Digest BioCantor.Model.Digest BioCantor.Proofs.Dig
 open BioCantor.Spec.Qual (Str strLt strLe)
@@ -44,16 +45,30 @@ theorem dict_order_irrelevant (a b : List (Str × PyVal)) (h : a.Perm b) (w : wf
     the keys and in the order / multiplicity of the values inside each key are imported
     (`_import_qualifiers_from_list`: list → set of `str`) to stored qualifiers that contribute the same tokens. -/
 theorem qualifier_order_irrelevant (q q' : RawQuals) (h : SameRawQuals q q') (hk : (q.map (·.1)).Nodup) :
-    memberTokens (qualsVal (importQuals (some q))) = memberTokens (qualsVal (importQuals (some q'))) := by
-  apply (memberTokens_sameContent (importQuals_same h) ?_).1
-  rw [qualsVal, wfDict_iff]
-  constructor
-  · simpa [importQuals, List.map_map, Function.comp_def] using hk
-  · intro e he
-    simp only [List.mem_map] at he
-    rcases he with ⟨x, _, rfl⟩
-    simp only [wfVal, wfList_iff, List.mem_map]
-    rintro v ⟨s, _, rfl⟩; rfl
+    memberTokens (qualsVal (importQuals (some q))) = memberTokens (qualsVal (importQuals (some q'))) :=
+  memberTokens_importQuals_same h hk
+
+/-- T1d': hence the GUID of every leaf class is the same for two constructor calls that differ only in the insertion
+    order (and multiplicity) of qualifier keys / values — the model-side statement of the `digest2 same` clause. -/
+theorem guid_ignores_qualifier_order (md5 : List Str → Str) (q q' : RawQuals) (h : SameRawQuals q q')
+    (hk : (q.map (·.1)).Nodup) :
+    (∀ t : TxArgs, txGuid md5 { t with quals := importQuals (some q) } = txGuid md5 { t with quals := importQuals (some q') }) ∧
+    (∀ c : CdsArgs, cdsGuid md5 { c with quals := importQuals (some q) } = cdsGuid md5 { c with quals := importQuals (some q') }) ∧
+    (∀ f : FeatArgs, featGuid md5 { f with quals := importQuals (some q) } = featGuid md5 { f with quals := importQuals (some q') }) ∧
+    (∀ v : VarArgs, varGuid md5 { v with quals := importQuals (some q) } = varGuid md5 { v with quals := importQuals (some q') }) :=
+  have hm := memberTokens_importQuals_same h hk
+  ⟨fun t => tx_guid_quals md5 t hm, fun c => cds_guid_quals md5 c hm, fun f => feat_guid_quals md5 f hm,
+   fun v => var_guid_quals md5 v hm⟩
+
+/-- T1d'': feature types are digested as a set, children GUIDs are digested as a set: the GUID of a feature does not
+    depend on the order of its types, the GUID of a gene not on the order of its transcripts. -/
+theorem guid_ignores_member_order (md5 : List Str → Str) :
+    (∀ (f : FeatArgs) (a b : List Str), a.Perm b →
+      featGuid md5 { f with featureTypes := a } = featGuid md5 { f with featureTypes := b }) ∧
+    (∀ (g : GeneArgs) (cs : Frame) (txs txs' : List TxArgs), txs.Perm txs' →
+      (geneDigestArgs md5 { g with transcripts := txs } cs).map (guidOf md5) =
+        (geneDigestArgs md5 { g with transcripts := txs' } cs).map (guidOf md5)) :=
+  ⟨fun f _ _ h => feat_guid_types md5 f h, fun g cs _ _ h => gene_guid_children md5 g cs h⟩
 
 /-- T1e: the hand-written mirror of util/hashing.py produces the REFERENCE stream (written from the docstring:
     members sorted as strings by insertion, keys in ascending order, recursively) for all well-formed arguments;
@@ -232,6 +247,74 @@ theorem imported_objects_survive_export_import (md5 : List Str → Str) (cs : Fr
    fun _ _ h => var_import_stable md5 h, fun _ _ h => gene_import_stable md5 h, fun _ _ h => fc_import_stable md5 h,
    fun _ _ h => vc_import_stable md5 h⟩
 
+/-- T3-image-ac: the same for AnnotationCollection: a collection the importer builds (from any dictionary, with any
+    parent handed in) whose parent is one of the restorable parent situations (`ParentWF`) and which has bounds is
+    restored unchanged, through the exported parent and with the parent handed to `from_dict`. -/
+theorem imported_collection_survives_export_import (md5 : List Str → Str) (d : PyVal) (given : ParentDesc)
+    (o : AcObj) (h : acFromDict md5 d given = .ok o) (hp : ParentWF o.parent) (exportParent : Bool) (d' : PyVal)
+    (hd : acToDict o exportParent = .ok d') :
+    acFromDict md5 d' (if exportParent then .none else o.parent) = .ok o :=
+  ac_import_stable md5 h hp exportParent d' hd
+
+/-- … and which parent an imported collection has: the one handed in, or — read from the dictionary — a restorable
+    one, or a sequence-less parent that is not typed CHROMOSOME (see the witness below). -/
+theorem imported_collection_parent (md5 : List Str → Str) (d : PyVal) (given : ParentDesc) (o : AcObj)
+    (h : acFromDict md5 d given = .ok o) :
+    o.parent = given ∨ (given = .none ∧ (ParentWF o.parent ∨ ∃ id, o.parent = .bare id false)) :=
+  ac_image_parent md5 h
+
+/- FULL STATEMENT (does NOT hold): `parent_dict_roundtrip` for every parent.  A sequence-less parent with a custom or
+   missing sequence type exports `"type": None` (interval.py:135-157 writes the type only together with a
+   sequence); without a name nothing at all is left. -/
+
+/-- witness: a nameless, untyped sequence-less parent is exported as an all-null dictionary and comes back as NO
+    parent. -/
+theorem untyped_parent_witness :
+    parentFromDict (parentToDict (.bare none false) (0, 4)) = .ok .none := rfl
+
+/-- T3-idem: `to_dict ∘ from_dict` is idempotent: re-importing what an imported object exports and exporting again
+    gives the same dictionary (all seven child-free / child-holding classes). -/
+theorem to_dict_from_dict_idempotent (md5 : List Str → Str) (cs : Frame) :
+    (∀ d o, txFromDict md5 d = .ok o → (txFromDict md5 (txToDict o)).map txToDict = .ok (txToDict o)) ∧
+    (∀ d o, cdsFromDict md5 d = .ok o → (cdsFromDict md5 (cdsToDict o)).map cdsToDict = .ok (cdsToDict o)) ∧
+    (∀ d o, featFromDict md5 d = .ok o → (featFromDict md5 (featToDict o)).map featToDict = .ok (featToDict o)) ∧
+    (∀ d o, varFromDict md5 d = .ok o → (varFromDict md5 (varToDict o)).map varToDict = .ok (varToDict o)) ∧
+    (∀ d o, geneFromDict md5 cs d = .ok o → (geneFromDict md5 cs (geneToDict o)).map geneToDict = .ok (geneToDict o)) ∧
+    (∀ d o, fcFromDict md5 cs d = .ok o → (fcFromDict md5 cs (fcToDict o)).map fcToDict = .ok (fcToDict o)) ∧
+    (∀ d o, vcFromDict md5 cs d = .ok o → (vcFromDict md5 cs (vcToDict o)).map vcToDict = .ok (vcToDict o)) :=
+  ⟨fun _ _ h => by rw [tx_import_stable md5 h]; rfl, fun _ _ h => by rw [cds_import_stable md5 h]; rfl,
+   fun _ _ h => by rw [feat_import_stable md5 h]; rfl, fun _ _ h => by rw [var_import_stable md5 h]; rfl,
+   fun _ _ h => by rw [gene_import_stable md5 h]; rfl, fun _ _ h => by rw [fc_import_stable md5 h]; rfl,
+   fun _ _ h => by rw [vc_import_stable md5 h]; rfl⟩
+
+/-! ## T4 — the exported dictionary is loadable by the data model (io/models.py as plain data)
+
+  `accepts c d` = `XModel.Schema().load(d)` raises no ValidationError: every key of `d` is a declared field, every
+  required field is present, `None` only where `Optional`, declared value shapes, nested models recursively.
+  (marshmallow itself is outside the model; the field table is compared with `XModel.Schema().fields` on every run.) -/
+
+/-- T4: for every class with a data model, `to_dict()` of an object in constructor state lies in the accepted domain
+    of its model — for the collection also with the parent exported, provided the parent's alphabet is an `Alphabet`
+    member.  (This is the clause F-C08b violated: key `guid` vs `variant_interval_guid`.) -/
+theorem exported_dict_is_loadable :
+    (∀ o : TxObj, TxWF o → accepts .tx (txToDict o) = true) ∧
+    (∀ o : FeatObj, accepts .feat (featToDict o) = true) ∧
+    (∀ o : VarObj, accepts .var (varToDict o) = true) ∧
+    (∀ o : GeneObj, GeneWF o → accepts .gene (geneToDict o) = true) ∧
+    (∀ o : FcObj, accepts .fc (fcToDict o) = true) ∧
+    (∀ o : VcObj, accepts .vc (vcToDict o) = true) ∧
+    (∀ (o : AcObj) (exportParent : Bool) (d : PyVal), (∀ g ∈ o.genes, GeneWF g) → AlphabetOk o.parent →
+      acToDict o exportParent = .ok d → accepts .ac d = true) :=
+  ⟨tx_accepted, feat_accepted, var_accepted, gene_accepted, fc_accepted, vc_accepted,
+   fun o ep d hg ha hd => ac_accepted o hg ha ep d hd⟩
+
+/-- F-C08b regression fact (fixed in 1241fde): ANY dictionary carrying the key `guid` — as variants were exported before the fix —
+    is refused by `VariantIntervalModel` (unknown field); `variant_interval_guid` is a declared field. -/
+theorem f_c08b_regression :
+    (∀ (kvs : List (Str × PyVal)) (v : PyVal), ("guid".toList, v) ∈ kvs → accepts .var (.dict kvs) = false) ∧
+    (fieldOf .var "variant_interval_guid".toList).isSome = true :=
+  ⟨fun _ _ h => unknown_key_refused .var (by decide +kernel) h, by decide +kernel⟩
+
 /-- T3-tx': `to_dict(from_dict(d)) = d` on the image of `to_dict`. -/
 theorem tx_dict_roundtrip_image (md5 : List Str → Str) (o : TxObj) (h : TxWF o) :
     (txFromDict md5 (txToDict o)).map txToDict = .ok (txToDict o) := by
@@ -302,6 +385,10 @@ example : VcWF exVc := exVc_wf
 /-- an exportable collection on a sequence chunk satisfies every hypothesis of `ac_dict_roundtrip` -/
 example : AcWF (fun _ => []) exAc ∧ exAc.bounds = some (10, 14) ∧ exAc.genes ≠ [] := ⟨exAc_wf, rfl, by decide⟩
 
+example : AlphabetOk exAc.parent := by
+  show (Gen.alphabets.lookup "NT_STRICT".toList).isSome = true; decide +kernel
+example : AlphabetOk (.chrom "ACGT".toList "NT_EXTENDED_GAPPED".toList none) := by
+  show (Gen.alphabets.lookup "NT_EXTENDED_GAPPED".toList).isSome = true; decide +kernel
 example : ParentWF (.chrom "ACGT".toList "NT_STRICT".toList (some "chr1".toList)) := ⟨by decide, Or.inr (by decide)⟩
 example : ParentWF (.chrom "ACGT".toList "NT_STRICT".toList none) := ⟨by decide, Or.inl rfl⟩
 example : ParentWF (.chunk "ACGT".toList "NT_STRICT".toList "chr1".toList 10 14 .plus) := by
